@@ -207,6 +207,19 @@ def run(ctx, rep):
             else:
                 rep.ok("C08.tracker", "forward:" + who, "input forwarded unconsumed")
     rep.count("forwarding_trackers", n_fwd)
+    # a tracker that answers a query by asking another tracker asks the same question
+    TR = ("simplicity::bit_machine::tracker::PruneTracker", "simplicity::bit_machine::tracker::ExecTracker")
+    for f in sorted(F.fns.values(), key=lambda x: x.path):
+        if f.impl_trait not in TR or f.name not in ("contains_left", "contains_right", "visit_node"):
+            continue
+        for cs in f.calls():
+            if cs.name in ("contains_left", "contains_right", "visit_node") and (cs.trait in TR or (cs.decl or "").startswith(TR)) and cs.callee != f.path:
+                who = fm.short(f.impl_self or f.path)
+                if cs.name == f.name:
+                    rep.ok("C08.tracker", "delegate:%s::%s" % (who, f.name), None)
+                else:
+                    rep.violation("C08.tracker", "delegate:%s::%s" % (who, f.name), "%s::%s answers by calling %s of the inner tracker: the pruner would be told the "
+                                  "wrong side" % (who, f.name, cs.name), cs.where())
 
     # ---------------- prune decision ----------------
     pc = [f for f in F.fns.values() if f.name == "prune_case" and "prune_with_tracker::Pruner" in (f.impl_self or "")]
